@@ -15,32 +15,36 @@ use serde::{Deserialize, Serialize};
 const PAGE: usize = 4096;
 const DATA_PAGES: usize = 6;
 
-/// guard page | DATA_PAGES data pages | guard page
+/// guard page | `pages` data pages | guard page
 pub struct Arena {
     base: *mut u8,
+    pages: usize,
 }
 
 impl Arena {
     pub fn new() -> Arena {
+        Arena::with_pages(DATA_PAGES)
+    }
+    pub fn with_pages(pages: usize) -> Arena {
         unsafe {
-            let total = (DATA_PAGES + 2) * PAGE;
+            let total = (pages + 2) * PAGE;
             let p = libc::mmap(std::ptr::null_mut(), total, libc::PROT_READ | libc::PROT_WRITE, libc::MAP_PRIVATE | libc::MAP_ANONYMOUS, -1, 0);
             assert!(p != libc::MAP_FAILED, "mmap failed");
             let base = p as *mut u8;
             assert_eq!(libc::mprotect(base as *mut libc::c_void, PAGE, libc::PROT_NONE), 0);
-            assert_eq!(libc::mprotect(base.add((DATA_PAGES + 1) * PAGE) as *mut libc::c_void, PAGE, libc::PROT_NONE), 0);
-            Arena { base }
+            assert_eq!(libc::mprotect(base.add((pages + 1) * PAGE) as *mut libc::c_void, PAGE, libc::PROT_NONE), 0);
+            Arena { base, pages }
         }
     }
     pub fn data(&self) -> &mut [u8] {
-        unsafe { std::slice::from_raw_parts_mut(self.base.add(PAGE), DATA_PAGES * PAGE) }
+        unsafe { std::slice::from_raw_parts_mut(self.base.add(PAGE), self.pages * PAGE) }
     }
 }
 
 impl Drop for Arena {
     fn drop(&mut self) {
         unsafe {
-            libc::munmap(self.base as *mut libc::c_void, (DATA_PAGES + 2) * PAGE);
+            libc::munmap(self.base as *mut libc::c_void, (self.pages + 2) * PAGE);
         }
     }
 }
@@ -113,7 +117,15 @@ impl ArenaMem {
 }
 impl Mem for ArenaMem {
     fn slot(&mut self, id: usize, len: usize) -> &mut [u8] {
-        let total = DATA_PAGES * PAGE;
+        if len + 4 * PAGE > DATA_PAGES * PAGE {
+            // long inputs: an arena of their own size (same layout: guard page on both sides, canaries around the slice)
+            let a = Arena::with_pages(len / PAGE + 5);
+            for b in a.data().iter_mut() {
+                *b = CANARY;
+            }
+            self.arenas[id] = a;
+        }
+        let total = self.arenas[id].data().len();
         assert!(len + 128 <= total);
         let start = match self.placement {
             Placement::EndAtGuard => total - len,
@@ -420,6 +432,7 @@ pub fn align_check(c: &AlignCase, info: &mut CaseInfo) -> Result<(), Fail> {
     });
     info.nontrivial = c.len >= 1 && !matches!(c.placement, Placement::Interior(k) if k % 16 == 0);
     info.label_if(c.len >= 4096, "length >= 4096");
+    info.label_if(c.len >= 65_536, "length >= 64 KiB in one call");
     match got {
         Err(p) => Err(fail("PANIC", format!("{:?} len {}: {}", c.placement, c.len, p))),
         Ok(g) => {
@@ -498,6 +511,23 @@ pub fn run_c16(ctx: &mut Ctx) {
             }
         }
     }
+    // long inputs: bulk paths (wide loops, streaming stores, block runs taken straight from the caller's slice) only start
+    // at some size - every variable-length API with 64 KiB .. 1.3 MiB in one call, at aligned and unaligned starts and
+    // against both guard pages, after a short first call that leaves the object's buffer partly filled
+    let mut long = Vec::new();
+    let long_lens = [65_536 + 17usize, 262_144, (1 << 20) + 256, 1_300_001];
+    let mut li = 0usize;
+    for api in apis.iter().filter(|a| a.variable_length()) {
+        for p in [Placement::Interior(0), Placement::Interior(16), Placement::Interior(1), Placement::Interior(40), Placement::StartAfterGuard, Placement::EndAtGuard, Placement::AcrossPage(7)] {
+            li += 1;
+            // the full list only in the full-scale workers; the others take every third case
+            if ctx.scale < 0.9 && li % 3 != 0 {
+                continue;
+            }
+            long.push(AlignCase { api: api.clone(), placement: p, len: long_lens[li % long_lens.len()], seed: crate::engine::splitmix(&mut s) });
+        }
+    }
+    ctx.run_list("long-inputs", long, align_check);
     ctx.exhaustive_dimensions.push(format!("C16: {} APIs x start alignments 0..63 x {{interior, ends at guard page, starts after guard page}}", apis.len()));
     ctx.run_list("placement-sweep", cases, align_check);
     // generated: random (api, placement, length, content)
@@ -516,4 +546,5 @@ pub fn run_c16(ctx: &mut Ctx) {
     ctx.required_classes.push("slice starts after an unmapped page".into());
     ctx.required_classes.push("not 16-byte aligned".into());
     ctx.required_classes.push("slice straddles a page boundary".into());
+    ctx.required_classes.push("length >= 64 KiB in one call".into());
 }
